@@ -38,7 +38,7 @@ func vH_C13_inputData_packet() {
 	r1 := s.nextRecv.Load()
 	vAssert(r1 >= r0 && r1-r0 <= 3, "nextRecv never decreases and advances by at most the segments at hand")
 	// everything in the application queue has seq in [r0, r1) and is exactly the run r0, r0+1, ...
-	m := vTrees[s.recvQueue.tr]
+	m := vModelOf(s.recvQueue)
 	vAssert(uint32(m.n) == r1-r0, "nextRecv advanced by exactly the number of segments delivered")
 	for i := 0; i < vTreeK; i++ {
 		if i < m.n {
@@ -48,7 +48,7 @@ func vH_C13_inputData_packet() {
 		}
 	}
 	// what stays buffered is strictly above the new nextRecv
-	b := vTrees[s.recvBuf.tr]
+	b := vModelOf(s.recvBuf)
 	for i := 0; i < vTreeK; i++ {
 		if i < b.n {
 			vAssert(vSeq(b.items[i]) > r1 || vSeq(b.items[i]) >= r1, "nothing at or below nextRecv is left undelivered in the buffer unless it is a gap")
